@@ -63,6 +63,7 @@ type stats struct {
 	Evaluations int               `json:"evaluations"`
 	NonTrivial  map[uint64]bool   `json:"-"`
 	NTHashes    []uint64          `json:"nontrivial_hashes"`
+	BulkNT      int               `json:"bulk_nontrivial"` // distinct by construction (enumerations)
 	Labels      map[string]int    `json:"labels"`
 	Samples     []json.RawMessage `json:"samples"`
 	sampleSeen  map[string]int
@@ -159,10 +160,7 @@ func RecordBulk(prop, name, rule string, n, nt int, exhaustive bool, samples ...
 	st.mu.Lock()
 	defer st.mu.Unlock()
 	st.Evaluations += n
-	base := uint64(len(st.NonTrivial)) + 0x9e3779b97f4a7c15
-	for i := 0; i < nt; i++ {
-		st.NonTrivial[base+uint64(i)*0x100000001b3] = true
-	}
+	st.BulkNT += nt
 	if exhaustive {
 		st.Exhaustive = true
 	}
